@@ -1,4 +1,5 @@
 """Runs the real FunctorPool / FactoryFunctorPool under the harness-owned scheduler and analyses the run (C01-C04)."""
+import collections.abc as collections_abc
 import copy
 import math
 import sys
@@ -18,14 +19,29 @@ class SharedLog(prims.Shared, list):
 
 
 # 'special' payloads (call["vals"]): items that are None, falsy or empty containers; their result is the item itself, so that
-# None and falsy *results* occur as well. Positions are not recoverable from such items: only the value oracle is applied.
+# None and falsy *results* occur as well (container items are mapped to a tagged repr). Positions are not recoverable from such items: only the value oracle is applied.
 SPECIAL = [None, 0, "", [], False, (), 0.0, "a", [None], {}, None]
 
 
 def f(x):
     if type(x) is int:
         return [x, 2 * x + 1]
+    if isinstance(x, (list, tuple, dict)):
+        return ("container", repr(x))     # an item that is itself a list must reach the functor as one item
     return x
+
+
+class IntSeq(collections_abc.Sequence):
+    def __init__(self, items):
+        self._items = list(items)
+
+    def __len__(self):
+        return len(self._items)
+
+    def __getitem__(self, i):
+        if not isinstance(i, int):
+            raise TypeError("indices must be integers")
+        return self._items[i]
 
 
 def special_items(call):
@@ -140,6 +156,11 @@ def make_input(call, ci):
         return tuple(items)
     if kind == "iter":
         return iter(items)
+    if kind == "deque":          # a Sequence by registration that cannot be sliced
+        import collections
+        return collections.deque(items)
+    if kind == "intseq":         # a user-defined Sequence whose __getitem__ takes integers only
+        return IntSeq(items)
     if kind == "keys" and "vals" not in call:
         return dict.fromkeys(items).keys()
     if kind == "range":
